@@ -12,11 +12,12 @@ Declarative OFX wire grammar (DESIGN 6.2) and token-level well-nestedness (DESIG
 `ws` over the `str.isspace` set; tags over `[A-Z0-9._]+`; `d` non-empty, trimmed, free of `<`;
 CDATA-able: no `&`, no `]]>`, no `\n`.
 
-`strict = false` is the full grammar of DESIGN 6.2.  `strict = true` adds the two *local* side conditions
-the pinned parser needs (C02 findings):
+`strict = false` is the full grammar of DESIGN 6.2.  `strict = true` adds the two local side conditions
+the parser needs (C02 findings):
   (G2) no whitespace between `]]>` and the element's own end tag;
   (G3) the last child of an aggregate is not a data element bearing the aggregate's own tag.
-The third, non-local one (G1: at most one `]]>` per line, `cdSafe`) is a predicate on the whole string.
+(A third guard G1 — at most one `]]>` per line — was needed while the CDATA group was greedy; repaired in /repo by
+`fix: CDATA element data ends at the first ]]>`.)
 -/
 import OfxModel.Ofx.Lexer
 import OfxModel.Ofx.Tree
@@ -74,14 +75,6 @@ end
 /-- a whole body: optional whitespace around the root -/
 def RendersDoc (strict : Bool) (t : Tree) (s : Str) : Prop :=
   ∃ w1 s0 w2, ws w1 = true ∧ ws w2 = true ∧ Renders strict t s0 ∧ s = w1 ++ (s0 ++ w2)
-
-/-! ### guard G1: at most one `]]>` per line -/
-
-def lineHasClose (s : Str) : Bool := containsSub cdataClose (s.takeWhile notNl)
-
-def cdSafe : Str → Bool
-  | [] => true
-  | c :: cs => (if cdataClose.isPrefixOf (c :: cs) then !lineHasClose (cs.drop 2) else true) && cdSafe cs
 
 /-! ### executable renderer: a tree annotated with every choice the grammar leaves open -/
 
@@ -144,26 +137,45 @@ def blank : Option Str → Bool
   | none => true
   | some s => s.all isSpace
 
-/-- the match carries element data -/
-def hasData (m : Match) : Bool := m.cdata.isSome || !blank m.text
+/-- a non-empty string (Python truthiness) -/
+def nonEmpty : Option Str → Bool
+  | some (_ :: _) => true
+  | _ => false
 
-/-- `Balanced`: every start has its matching end (data elements and `<T></T>` close themselves), exactly one
-    root, nothing after it, no text after an end tag or after a closed element.
-    `stack` = names of the open aggregates, innermost first; `done` = the root has been completed. -/
+/-- the match carries element data: a CDATA section or text that is not all whitespace -/
+def hasData (m : Match) : Bool := nonEmpty m.cdata || !blank m.text
+
+/-- the name in an end tag `</NAME>` (tag group `/NAME`) -/
+def endName : Str → Option Str
+  | '/' :: n => some n
+  | _ => none
+
+/-- One token against the names of the open aggregates (`stack`, innermost first) and the flag "the root has been
+    completed" (`done`); `none` = not well nested:
+    * no text after a closed element (`tail`) or after an end tag;
+    * an end tag must name the innermost open aggregate, and closes it;
+    * a start tag may not follow the completed root; with data, or with its own end tag (`<T></T>`), the element is
+      complete at once (data elements close themselves, OFXv1 style); otherwise it opens an aggregate. -/
+def balStep (m : Match) (stack : List Str) (done : Bool) : Option (List Str × Bool) :=
+  if !blank m.tail then none
+  else match endName m.tag with
+    | some name =>
+      if hasData m then none
+      else match stack with
+        | top :: rest => if top = name then some (rest, rest.isEmpty) else none
+        | [] => none
+    | none =>
+      if stack.isEmpty && done then none
+      else if hasData m || m.closetag.isSome then some (stack, stack.isEmpty || done)
+      else some (m.tag :: stack, done)
+
+/-- `Balanced`: every start has its matching end, exactly one root, nothing after it -/
 def balancedGo : List Match → List Str → Bool → Bool
   | [], stack, done => stack.isEmpty && done
   | m :: ms, stack, done =>
-    blank m.tail &&
-    (match m.tag with
-     | '/' :: name =>
-        !hasData m &&
-        (match stack with
-         | top :: rest => top == name && balancedGo ms rest rest.isEmpty
-         | [] => false)
-     | tag =>
-        !(stack.isEmpty && done) &&
-        (if hasData m || m.closetag.isSome then balancedGo ms stack (stack.isEmpty || done)
-         else balancedGo ms (tag :: stack) done))
+    match balStep m stack done with
+    | some (s, d) => balancedGo ms s d
+    | none => false
 
 def balanced (ms : List Match) : Bool := balancedGo ms [] false
 
